@@ -32,7 +32,8 @@ RULE = ("valid streams of 0-4 chunks (an empty chunk included) x one fault: inva
         "check is on); duplicates identical in every column and duplicates differing in the value; an empty chunk followed by a non-empty "
         "one; destination URIs with and without the leading slash; every invalid family x id representation {int8..int64, uint8..uint64, "
         "integral float64, Python-object ints} x container {DataFrame, dict of arrays, dict of lists} x API {create_cooler ordered / unordered / whole "
-        "table, create} x count dtype, verdict decided by the value of the record as written; distinct by case hash")
+        "table, create} x count dtype, verdict decided by the value of the record as written; missing ids (float NaN, Int64 pd.NA: regression inputs of repaired D36), "
+        "an infinite id and a missing id / count column through every API x {DataFrame, dict}; distinct by case hash")
 TRUSTED = ["h5py/HDF5 group and attribute semantics are observed (SHA of attrs+datasets per tracked group), modelled only as path -> {format, content id}"]
 ASSUMPTIONS = ["faults are Python exceptions at chunk boundaries (validator, iterator, range check), as the property states"]
 RESIDUE = ["a process killed inside an HDF5 write (torn file) is outside the model",
@@ -221,15 +222,17 @@ def make_iter(items, chunkform, id_dtype="int64", count_dtype="int64"):
     return gen()
 
 
-NAN_SIGNATURE = "nan-bin-id-passes-boundscheck"
-
-
 def special_chunk(rows, name, form):
     """invalid inputs that have no integer value: built from a valid chunk"""
     import pandas as pd
     d = G.make_chunk(rows, [["count", "int", "int32", "int64"]], "dict", "float64" if name in ("nan_id", "inf_id") else "int64")
-    if name == "nan_id":
+    if name == "nan_id":                                  # regression corpus of repaired defect D36: float NaN id
         d["bin1_id"][-1] = np.nan
+    elif name == "na_id":                                 # ... and the pandas nullable-integer form of a missing id
+        b1 = pd.array([int(x) for x in d["bin1_id"]], dtype="Int64")
+        b1[-1] = pd.NA
+        d["bin1_id"] = pd.Series(b1)
+        d["bin2_id"] = pd.Series(pd.array([int(x) for x in d["bin2_id"]], dtype="Int64"))
     elif name == "inf_id":
         d["bin2_id"][-1] = np.inf
     elif name == "missing_bin2":
@@ -514,12 +517,9 @@ def gen_cases(ctx):
 
 
 def special_cases(ctx):
-    import common
-    names = ["inf_id", "missing_bin2", "missing_count"]
-    # a NaN bin id passes the bounds check of the unchanged code (every comparison with NaN is false) and is stored as INT64_MIN:
-    # reported to the lead; exercised on every run as soon as it is registered in known_findings.json under NAN_SIGNATURE
-    if any(k_.get("property") == "C13" and k_.get("signature") == NAN_SIGNATURE and k_.get("status") == "known" for k_ in common.load_known()):
-        names.append("nan_id")
+    # a missing bin id (float NaN, Int64 pd.NA) compares false with every bound: defect D36, repaired; its inputs stay here as
+    # an ordinary invalid-input family (regression corpus) judged by the hard oracle
+    names = ["nan_id", "na_id", "inf_id", "missing_bin2", "missing_count"]
     out = []
     k = 0
     for name in names:
@@ -553,7 +553,7 @@ def run(ctx):
         ctx.case(c, nontrivial=True, kind=f"special:{c['special']}")
         bad = oracle(c, o)
         if bad:
-            ctx.fail(c, {"violations": [[str(x)[:300] for x in b_] for b_ in bad[:4]]}, NAN_SIGNATURE if c["special"] == "nan_id" else None)
+            ctx.fail(c, {"violations": [[str(x)[:300] for x in b_] for b_ in bad[:4]]}, None)
     outs = [impl_run(c, tpl, work) for c in cases]
     exprs = [model_expr(c) for c in cases]
     model = C.coq_eval("From Cooler Require Import Model.Create.", exprs, tmpdir=ctx.tmp / "model", shard=120, jobs=4)
